@@ -52,7 +52,7 @@ func sweepWL(c *Ctx, b builtWL, budget int) wlSweep {
 		return ws
 	}
 	ws.leaves, ws.complete = sweep(sweepCfg{MaxLeaves: budget * 3}, op, func(l *Leaf) bool {
-		c.T(l.Res.brief())
+		c.T(l.Res.tkey())
 		if l.Res.Kind != "ok" {
 			if ws.bad == "" {
 				ws.bad = fmt.Sprintf("path %v: %s", l.Path, l.Res.brief())
@@ -447,7 +447,7 @@ func runC06Large(c *Ctx, s *C06Spec) {
 		}
 		e := entropyOp(NewTape(TapeSpec{Mode: "raw"}), &rec)
 		c.Eval(1)
-		c.T(e.brief())
+		c.T(e.tkey())
 		c.Distinct("large-char", cfg.String())
 		c.Count("large_char_configs_compared_with_model_count", 1)
 		if e.Kind != "ok" {
@@ -510,7 +510,7 @@ func runC06Large(c *Ctx, s *C06Spec) {
 	want := wlEntropyFormula(len(kept), allCap, cfg.Length, cfg.Cap, sl.Entropy)
 	e := entropyOp(NewTape(TapeSpec{Mode: "choice", Seed: s.Seed, Default: "random"}), rec)
 	c.Eval(1)
-	c.T(e.brief())
+	c.T(e.tkey())
 	c.Distinct("large-wl", cfg.String(), s.Shipped)
 	c.Count("large_wl_configs_compared_with_product_form", 1)
 	if e.Kind != "ok" {
